@@ -30,6 +30,34 @@ func c07Extra(t *rapid.T, sc *Scenario) {
 	}
 }
 
+// genC07FirstPassFault: a directed family around the first pass of a freshly created revision: the deployment controller
+// creates the ObjectSet, then an API call of that ObjectSet's own first reconcile (the reads of its previous revisions among
+// them) is answered with an error, a lost response or a crash.
+func genC07FirstPassFault(t *rapid.T, opts SetGenOpts) *Scenario {
+	sc := &Scenario{Prop: "C07", CreationOrder: true}
+	nt := rapid.IntRange(2, 4).Draw(t, "ntmpl")
+	for i := 0; i < nt; i++ {
+		s := GenSet(t, opts)
+		s.Phases = append(s.Phases, PhaseSpec{Name: "px", Objs: []ObjSpec{{Pool: 3, Variant: i}}})
+		sc.Tmpls = append(sc.Tmpls, s)
+	}
+	sc.Steps = append(sc.Steps, Step{Op: "createDeploy", I: 0}, Step{Op: "quiesce"})
+	for i := 1; i < nt; i++ {
+		sc.Steps = append(sc.Steps, Step{Op: "editDeploy", I: i}, Step{Op: "reconcile", Ctrl: engine.CtrlObjectDeployment})
+		for k := rapid.IntRange(1, 2).Draw(t, "nfault"); k > 0; k-- {
+			sc.Steps = append(sc.Steps, Step{Op: "fault", I: rapid.IntRange(0, 6).Draw(t, "ncall"), J: rapid.SampledFrom([]int{0, 0, 1, 2, 4, 5, 6, 7}).Draw(t, "fkind")},
+				Step{Op: "reconcile", Ctrl: engine.CtrlObjectSet, I: -1}) // (creation order: the newest ObjectSet)
+		}
+		if rapid.Bool().Draw(t, "settle") {
+			sc.Steps = append(sc.Steps, Step{Op: "quiesce"})
+		} else {
+			sc.Steps = append(sc.Steps, Step{Op: "reconcile", Ctrl: engine.CtrlObjectSet, I: -1}, Step{Op: "reconcile", Ctrl: engine.CtrlObjectDeployment})
+		}
+	}
+	sc.Steps = append(sc.Steps, Step{Op: "quiesce"})
+	return sc
+}
+
 func TestC07(t *testing.T) {
 	st := NewStats("C07", "engine", "scenario = one ObjectDeployment over 2-4 templates (+ empty template) with template edits incl. reverts and no-op edits, pause toggles, API errors / lost responses / crashes on any call of any pass (incl. between ObjectSet create and status update), restarts, and a reader for the deployment controller that may not yet see ObjectSets created since the last sync; non-trivial = history with a revert to an earlier template, or a fault that fired, or an open lag window at a deployment pass")
 	opts := SetGenOpts{AllowClass: false, AllowCluster: true, PoolSize: 4, MaxObjs: 2, MaxPhases: 2}
@@ -40,8 +68,16 @@ func TestC07(t *testing.T) {
 	CheckOrReplay(t, st, func(data []byte) (any, error) {
 		return ReplayScenario(data, func(sc *Scenario) *Runner { r, _ := mk(sc); return r })
 	}, func(rt *rapid.T) {
-		sc := genDeployWorld(rt, "C07", opts, c07Extra)
-		sc.Lag = rapid.IntRange(0, 2).Draw(rt, "lag") == 0
+		var sc *Scenario
+		if rapid.IntRange(0, 5).Draw(rt, "family") == 0 {
+			sc = genC07FirstPassFault(rt, opts)
+			if rapid.IntRange(0, 3).Draw(rt, "clusterdep") == 0 {
+				clusterFlavour(sc)
+			}
+		} else {
+			sc = genDeployWorld(rt, "C07", opts, c07Extra)
+			sc.Lag = rapid.IntRange(0, 2).Draw(rt, "lag") == 0
+		}
 		r, m := mk(sc)
 		err := r.Run()
 		st.Count("passes", int64(len(r.W.Passes)))
